@@ -337,14 +337,19 @@ def run(tier):
     res.require(okk, 'C02:decrypt_in_place:key-and-counter', 'decryption is not (AppSKey iff a non-zero FPort exists, else NwkSKey; counter = high half of the argument | wire bytes 6..8 LE; range frm_start..frm_end)', bd.body.path,
                 'TABLE(port -> key) + BITS(counter reconstruction)', instance='decrypt: AppSKey iff FPort present and non-zero; counter = (fcnt & 0xffff0000) | wire16; range = FRMPayload')
     # ------------------------------------------------------------------ (e) involution
-    hb = c.bf('lorawan::securityhelpers::generate_helper_block')
-    rd = reads_of(hb, lambda t: t == ('param', 1))
-    rset = sorted(str(x) for x in rd)
-    ok_i = set(rd) <= {('byte', 0), ('range', 1, 5)}
     eb = c.bf('lorawan::securityhelpers::encrypt_frm_data_payload')
-    # reads of the payload buffer in the CTR routine outside the helper block: only the byte being XORed
-    rd2 = [x for x in reads_of(eb, lambda t: t == ('param', 1)) if x[0] == 'byte']
-    ok_i = ok_i and all(isinstance(x[1], tuple) and any('arg2' in n for n, k_ in x[1][1]) for x in rd2)
+    # reads of the frame by the keystream side: the helper block (a function of its own, or part of the CTR routine) reads frame[0] and
+    # frame[1..5]; every other read of the CTR routine is the byte being XORed (offset start + ..)
+    rd = []
+    if c.prog.by_short.get('lorawan::securityhelpers::generate_helper_block'):
+        hb = c.bf('lorawan::securityhelpers::generate_helper_block')
+        rd = list(reads_of(hb, lambda t: t == ('param', 1)))
+    rd_all = list(reads_of(eb, lambda t: t == ('param', 1)))
+    rd += [x for x in rd_all if not (x[0] == 'byte' and isinstance(x[1], tuple))]
+    rset = sorted(str(x) for x in rd)
+    ok_i = set(rd) <= {('byte', 0), ('range', 1, 5)} and ('byte', 0) in rd and ('range', 1, 5) in rd
+    rd2 = [x for x in rd_all if x[0] == 'byte' and isinstance(x[1], tuple)]
+    ok_i = ok_i and all(any('arg2' in n for n, k_ in x[1][1]) for x in rd2)
     # frm_start >= 8 follows from (a): 1 + 7 + nibble (+1)
     res.require(ok_i and sorted(kinds) is not None, 'C02:involution', 'the keystream may depend on bytes that the decryption itself changes (helper block reads %s)' % rset, eb.body.path,
                 'DISJOINT(keystream inputs = frame[0..5], key, counter; written range starts at >= 8) + SHAPE(xor)', instance='decrypting twice restores the ciphertext: keystream inputs are frame bytes 0..5, XOR in place from offset >= 8')
